@@ -20,9 +20,14 @@ Theorem C08_all_map_ranges_analysed :
   forall s, In s inventory -> exists sh, shape_of s = Some sh.
 Proof. exact all_map_ranges_analysed. Qed.
 
-(* full statement: forall s, In s inventory -> exists sh, shape_of s = Some sh /\ is_insensitive sh = true.
-   Refuted for the pinned code by the replaceVariables site (C08_sequential_replacement_order_sensitive and
-   the Inventory case of Check.v); what holds for every site: *)
+(* full statement: every map iteration of the regenerated inventory is filed under a shape that is invariant
+   under permutation of the iteration order.  Holds for /repo since commit 6792a051a (before it the
+   replaceVariables loop was order-sensitive: C08_sequential_replacement_order_sensitive below). *)
+Theorem C08_all_map_ranges_order_insensitive :
+  forall s, In s inventory -> exists sh, shape_of s = Some sh /\ is_insensitive sh = true.
+Proof. exact all_map_ranges_order_insensitive. Qed.
+
+(* weaker form that also held before the repair *)
 Theorem C08_all_map_ranges_order_insensitive_partial :
   forall s, In s inventory ->
     In s sensitive_in_inventory \/ exists sh, shape_of s = Some sh /\ is_insensitive sh = true.
@@ -108,6 +113,7 @@ Example C08_keyed_writes_hyps_satisfiable :
 Proof. intros a b _ _ H. exact (collect_key_inj "p" a b H). Qed.
 
 Print Assumptions C08_all_map_ranges_analysed.
+Print Assumptions C08_all_map_ranges_order_insensitive.
 Print Assumptions C08_all_map_ranges_order_insensitive_partial.
 Print Assumptions C08_keyed_writes_order_insensitive.
 Print Assumptions C08_collect_variables_key_injective.
